@@ -94,6 +94,12 @@ type TupleV []Val
 
 // ---------- context ----------
 
+type callResult struct {
+	Callee string
+	Guard  string
+	Vals   []Val
+}
+
 type RetState struct {
 	St   *State
 	Vals []Val
@@ -153,6 +159,7 @@ type Ctx struct {
 	assertSeen     map[*AssertClause]bool
 	assertHook     func(v Val, target types.Type, st *State) (Val, string, bool) // family engines: type assertions on modelled library values
 	bidMemo        map[string]string // ids handed out for byte-sequence values, by syntactic identity of the value
+	callResults    []callResult // ghost record of contract-based calls and what they returned
 	listAppends    []listAppend // ghost record of append(list, elem…) calls
 	mapEvents      []mapEvent
 	mapMakes       []string // ids of maps created by make in this unit
